@@ -52,6 +52,15 @@ def configs(tier, seed):
             for fl in (0, 1, 2, 3):
                 out.append(dict(part='propagate', op=op, signed=s1, n_word=n1, n_frac=f1, signed2=s2, n_word2=n2, n_frac2=f2, flags=fl,
                                 rounding='trunc', overflow='saturate'))
+                if op in ('add', 'sub', 'mul') and fl:
+                    # the same through a caller-supplied destination (out=) and an out_like template, wide enough to hold the result exactly
+                    for tgt in ('out', 'out_like', 'op_out'):
+                        out.append(dict(part='propagate', op=op, signed=s1, n_word=n1, n_frac=f1, signed2=s2, n_word2=n2, n_frac2=f2, flags=fl,
+                                        rounding='trunc', overflow='saturate', target=tgt))
+    # stickiness through operations that are neither a write nor reset(): a raised flag must survive them
+    for (s, n, f) in small[:8]:
+        for step in ('resize_wider', 'resize_same', 'resize_dtype', 'config_change', 'read', 'arith', 'index', 'copy', 'like_template', 'bitwise', 'shift'):
+            out.append(_cfg('sticky', s, n, f, 'trunc', 'saturate', 'code', pre=rng.randrange(1, 8), step=step))
     return out
 
 
@@ -65,6 +74,9 @@ def _ncells(cfg):
 
 def inputs(cfg):
     s, n, f = cfg['signed'], cfg['n_word'], cfg['n_frac']
+    if cfg['part'] == 'sticky':
+        lo, hi = SP.limits(s, n)
+        return {'a': dict(kind='int', lo=lo, hi=hi)}
     if cfg['part'] == 'propagate':
         lo, hi = SP.limits(s, n)
         lo2, hi2 = SP.limits(cfg['signed2'], cfg['n_word2'])
@@ -122,7 +134,17 @@ def run(F, cfg, inp):
         x.status['inaccuracy'] = bool(cfg['flags'] & 1)
         y.status['inaccuracy'] = bool(cfg['flags'] & 2)
         op = cfg['op']
-        if op in OPS2:
+        tgt = cfg.get('target')
+        if tgt:
+            t = F.Fxp(None, True, 40, 16)
+            if tgt == 'out':
+                z = getattr(F.pkg, op)(x, y, out=t)
+            elif tgt == 'out_like':
+                z = getattr(F.pkg, op)(x, y, out_like=t)
+            else:
+                x.config.op_out = t
+                z = {'add': lambda: x + y, 'sub': lambda: x - y, 'mul': lambda: x * y}[op]()
+        elif op in OPS2:
             z = getattr(F.pkg, op)(x, y)
         elif op == 'sum':
             z = F.np.sum(x)
@@ -131,6 +153,35 @@ def run(F, cfg, inp):
         else:
             z = x.cumsum()
         return dict(z=_st(z), x=_st(x), y=_st(y))
+    if cfg['part'] == 'sticky':
+        x = F.Fxp([0, 0] if cfg['step'] == 'index' else None, s, n, f)
+        x.set_val([inp['a'], 0] if cfg['step'] == 'index' else inp['a'], raw=True)
+        pre = cfg['pre']
+        x.status['overflow'], x.status['underflow'], x.status['inaccuracy'] = bool(pre & 1), bool(pre & 2), bool(pre & 4)
+        st = cfg['step']
+        if st == 'resize_wider':
+            x.resize(n_word=n + 3, n_frac=f + 1)
+        elif st == 'resize_same':
+            x.resize(s, n, f)
+        elif st == 'resize_dtype':
+            x.resize(dtype=C.fmt_str(s, n + 2, f))
+        elif st == 'config_change':
+            x.config.rounding, x.config.overflow, x.config.op_sizing = 'ceil', 'wrap', 'same'
+        elif st == 'read':
+            x.get_val(), x.bin(), x.hex(), x.astype(float), x.raw(), x.get_status(), x.get_dtype('Q')
+        elif st == 'arith':
+            (x + x), (x * x), (-x), abs(x)
+        elif st == 'index':
+            x[0], x[1]
+        elif st == 'copy':
+            x.copy(), x.deepcopy()
+        elif st == 'like_template':
+            F.Fxp(None, like=x), x.like(F.Fxp(None, True, 20, 4))
+        elif st == 'bitwise':
+            (~x), (x & 3), (x | 1)
+        else:
+            (x << 1), (x >> 1)
+        return dict(status=_st(x))
     rec = _recorder(F)
     ent = cfg.get('entry', 'set_val')
     nc = _ncells(cfg)
@@ -170,6 +221,9 @@ def post(cfg, inp, ob):
         if relevant:
             out.append(('inaccuracy_propagated', ob['z']['inaccuracy'] is True))
         return out
+    if cfg['part'] == 'sticky':
+        pre, st = cfg['pre'], ob['status']
+        return [('raised_flag_survives:' + k, (not bool(pre & b)) or st[k] is True) for k, b in (('overflow', 1), ('underflow', 2), ('inaccuracy', 4))]
     vals = [inp['v%d' % i] for i in range(_ncells(cfg))]
     fl = [SP.flags(v, s, n, f, r, o) for v in vals]
     ovf, unf, inx = SP.OR(*[x[0] for x in fl]), SP.OR(*[x[1] for x in fl]), SP.OR(*[x[2] for x in fl])
